@@ -78,7 +78,25 @@ def gen_mixedwidth(rng, n, shape):
     return vals
 
 
+OFFSET = [1e9]
+
+
+def spread_scale(kind, flatvals, default):
+    """tolerance scale for second moments of data with a large common offset M and a small spread R: the streaming (Welford) update
+    loses about n*u*M*R, not u*M*M — a tolerance relative to M*M would hide a catastrophic cancellation"""
+    if kind not in ('var', 'cov', 'rvar', 'rcov') or not flatvals:
+        return default
+    d = len(flatvals[0])
+    M = max([abs(x) for c in flatvals for x in c] + [Fraction(1)])
+    R = max([max(c[j] for c in flatvals) - min(c[j] for c in flatvals) for j in range(d)] + [Fraction(1, 8)])
+    n = len(flatvals)
+    tol = Fraction(64 * n) * Fraction(2) ** -53 * M * R + Fraction(1, 10 ** 9) * R * R
+    return min(default, tol * 10 ** 9)
+
+
 def gen_values(rng, n, shape, family):
+    if family == 'offset':
+        OFFSET[0] = rng.choice([1e9, -3e8, float(2 ** 40), 12345678.0])
     if family == 'narrowint':
         return gen_narrow(rng, n, shape)
     if family == 'mixedwidth':
@@ -96,6 +114,10 @@ def gen_values(rng, n, shape, family):
                 return rng.choice([rng.randint(-9, 9), rng.randint(-90, 90) / 4.0])
             if family == 'big':
                 return float(rng.randint(-3, 3) * 2 ** rng.randint(0, 30))
+            if family == 'offset':
+                # a large common offset, a small spread (detector pedestal): the variance must come out of the spread, not be
+                # lost in the square of the offset — every value is exactly representable
+                return OFFSET[0] + rng.randint(-64, 64) / 8.0
             if family == 'nearmax':
                 # finite, and so is every mean / extremum of them — but their SUM is not: nothing may be summed up
                 return rng.choice([1.0, 1.0, 1.0, -1.0]) * rng.uniform(0.9, 1.7) * 1e308
@@ -155,6 +177,17 @@ def batch_oracle(kind, vals):
     raise ValueError(kind)
 
 
+def all_integer_observations(vals):
+    """every observation is an integer array / numpy integer / Python int (no float among them: then the result is float)"""
+    for v in vals:
+        if isinstance(v, dict):
+            if not str(v.get('dtype', '')).startswith(('int', 'uint')):
+                return False
+        elif isinstance(v, bool) or not isinstance(v, int):
+            return False
+    return True
+
+
 def oracle_check(ctx, kind, vals_prefix, readout, case, scale):
     """compare one implementation read-out with the exact batch statistic"""
     if isinstance(readout, str):
@@ -176,7 +209,11 @@ def oracle_check(ctx, kind, vals_prefix, readout, case, scale):
             ctx.fail('read-raises:%s:%s:%s' % (kind, k, iv), '%s.%s raised %s' % (kind, k, iv), case)
             ok = False
             continue
-        if kind in ('min', 'max'):
+        if kind in ('min', 'max') and k == 'value' and all(q.denominator == 1 for q in exp[k]) and all_integer_observations(vals_prefix):
+            # integer observations: the extremum is that integer, in an integer dtype, exactly (also beyond 2**53)
+            ei = readout.get('exact_int')
+            good = ei is not None and len(ei) == len(exp[k]) and all(Fraction(a) == q for a, q in zip(ei, exp[k]))
+        elif kind in ('min', 'max'):
             # an extremum is one of the observations: exact wherever a float carries the value exactly
             good = len(iv[1]) == len(exp[k]) and all(
                 (not (math.isnan(f) or math.isinf(f)) and Fraction(f) == q) if abs(q) < 2 ** 53 else acclib.close_num(f, q, scale)
@@ -278,7 +315,7 @@ def check(ctx):
         if kind == 'cov' and int(np.prod(shape)) > 4:
             shape = (2,)
         family = rng.choice(['int', 'dyadic', 'tied', 'mixed', 'big', 'narrowint'] + (['mixedwidth'] * 3 if kind in ('min', 'max') else [])
-                            + (['nearmax'] if kind in ('min', 'max', 'mean', 'counter') else []))
+                            + (['nearmax'] if kind in ('min', 'max', 'mean', 'counter') else []) + ['offset'])
         n = rng.choice([1, 2, 3, 4, 5, 8, 13, 30] if ctx.quick else [1, 2, 3, 5, 8, 13, 30, 60, 150])
         cases.append((kind, gen_values(rng, n, shape, family), family))
     lines, spans, progs = [], [], []
@@ -301,6 +338,8 @@ def check(ctx):
         flatvals = [acclib.flat(v)[1] for v in vals] if kind != 'counter' else [[Fraction(0)] for _ in vals]
         mx = max([abs(x) for c in flatvals for x in c] + [Fraction(1)])
         scale = mx * mx if kind in ('var', 'cov') else mx
+        if fam == 'offset':
+            scale = spread_scale(kind, flatvals, scale)
         case = {'kind': kind, 'values': vals, 'family': fam, 'history_ops': hop}
         distinct = len({tuple(c) for c in flatvals}) >= 2
         ctx.case((kind, vals), len(vals) >= 3 and distinct, sample=case if fam != 'corpus' else None)
